@@ -408,11 +408,15 @@ def _invalid_values(kind):
                 ('arr0d', {'t': 'arr', 'v': 2.0}),
                 ('arr1d', {'t': 'arr', 'v': [1.0, 2.0]}),
                 ('quantity_pix', Q(2.0, 'pix')), ('quantity_deg', Q(2.0, 'deg')),
+                ('quantity_dimensionless', Q(2.0, '')),
+                ('quantity_percent', Q(200.0, 'percent')),
                 ('np_nan', {'t': 'npf', 'v': {'t': 'nan'}}),
                 ('np_inf', {'t': 'npf', 'v': {'t': 'inf'}})]
     if kind == 'nvert':
         return [('zero', 0), ('neg', -3), ('str', 'a'), ('none', None),
                 ('one', 1), ('two', 2), ('two_and_a_half', 2.5),
+                ('three_and_a_half', 3.5), ('four_point_two', 4.2),
+                ('quantity_dimensionless', Q(5.0, '')),
                 ('numeric_str', '5'), ('numeric_bytes', {'t': 'bytes', 'v': '5'}),
                 ('list', {'t': 'list', 'v': [3]}), ('nan', {'t': 'nan'}),
                 ('inf', {'t': 'inf'})]
@@ -452,6 +456,8 @@ def _invalid_values(kind):
     if kind == 'pixpos':
         return [('array', pixarr), ('array2d', pix2d), ('sky', skys),
                 ('became_array', {'_mutated': 'scalar_to_array'}),
+                ('y_became_array', {'_mutated': 'scalar_y_to_array'}),
+                ('x_became_array', {'_mutated': 'scalar_x_to_array'}),
                 ('array1', {'t': 'pix', 'x': [1.0], 'y': [2.0]}),
                 ('array0', {'t': 'pix', 'x': {'t': 'arr', 'v': []},
                             'y': {'t': 'arr', 'v': []}}),
@@ -521,11 +527,20 @@ def _mutated_pixcoord(how):
     """A PixCoord that WAS valid, was used (validated) as such, and whose
     public data members were then re-assigned so that it no longer is."""
     from regions import CirclePixelRegion, PixCoord, PolygonPixelRegion
-    if how == 'scalar_to_array':
+    if how in ('scalar_to_array', 'scalar_y_to_array', 'scalar_x_to_array'):
         p = PixCoord(1.0, 2.0)
         CirclePixelRegion(p, 1.0)                 # validated while scalar
-        p.x = np.array([1.0, 2.0, 3.0])
-        p.y = np.array([4.0, 5.0, 6.0])
+        if how != 'scalar_y_to_array':
+            p.x = np.array([1.0, 2.0, 3.0])
+        if how != 'scalar_x_to_array':
+            p.y = np.array([4.0, 5.0, 6.0])
+    elif how in ('array_x_to_scalar', 'array_y_longer'):
+        p = PixCoord(np.array([1.0, 5.0, 3.0]), np.array([1.0, 1.0, 6.0]))
+        PolygonPixelRegion(p)                     # validated while 1-D
+        if how == 'array_x_to_scalar':
+            p.x = 2.0
+        else:
+            p.y = np.array([1.0, 1.0, 6.0, 2.0])
     else:
         p = PixCoord(np.array([1.0, 5.0, 3.0]), np.array([1.0, 1.0, 6.0]))
         PolygonPixelRegion(p)                     # validated while 1-D
@@ -676,6 +691,43 @@ def draw_dict_items(rng, kind, nmax=3, arrays=False):
                  or v is None or isinstance(v, str)]
         return plain or menu[k]
     return [[k, rng.pick(vals(k))] for k in keys]
+
+
+def _other_kind_meta(rng, f):
+    """A Meta object of the OTHER kind holding one of its own keys (valid for
+    it, outside the vocabulary of ``f``)."""
+    from regions import RegionMeta, RegionVisual
+    Other = RegionVisual if f == 'meta' else RegionMeta
+    omenu = VISUAL_MENU if f == 'meta' else META_MENU
+    ok_ = [k for k in (VISUAL_ONLY if f == 'meta' else META_ONLY)
+           if k in omenu]
+    k = rng.pick(ok_)
+    try:
+        return Other({k: build(rng.pick(_plain_vals(omenu, k)))})
+    except (TypeError, ValueError) as exc:
+        raise MenuRefused(repr(exc))
+
+
+def _pairs_as(form, items):
+    """The (key, value) pairs in one of the forms ``dict.update`` takes."""
+    import collections
+    import types
+    pairs = [(k, v) for k, v in items]
+    if form == 'dict':
+        return dict(pairs)
+    if form == 'tuple':
+        return tuple(pairs)
+    if form == 'iter':
+        return iter(pairs)
+    if form == 'gen':
+        return (p for p in pairs)
+    if form == 'zip':
+        return zip([k for k, _ in pairs], [v for _, v in pairs])
+    if form == 'userdict':
+        return collections.UserDict(dict(pairs))
+    if form == 'mappingproxy':
+        return types.MappingProxyType(dict(pairs))
+    return pairs
 
 
 def _plain_vals(menu, k):
@@ -2202,6 +2254,8 @@ class Machine:
                 if rng.chance(0.25):
                     name, rec = rng.pick(NON_MAPPINGS)
                     d = build_invalid(rec)
+                elif rng.chance(0.3):
+                    d = _other_kind_meta(rng, which)
                 if which == 'meta':
                     meta = d
                 else:
@@ -2602,8 +2656,11 @@ class Machine:
                 fn = lambda: Cls(arg)  # noqa
             desc = f'{entry}({type(arg).__name__} {[k for k, _ in items]})'
         elif entry == 'update_pairs':
-            fn = lambda: d.update([(k, v) for k, v in items])  # noqa
-            desc = f'update(pairs {[k for k, _ in items]})'
+            form = rng.pick(['list', 'tuple', 'iter', 'gen', 'zip',
+                             'userdict', 'mappingproxy'])
+            arg_ = lambda: _pairs_as(form, items)  # noqa
+            fn = lambda: d.update(arg_())  # noqa
+            desc = f'update({form} of pairs {[k for k, _ in items]})'
         elif entry == 'update_kw':
             fn = lambda: d.update(**dict(items))  # noqa
             desc = f'update(**{[k for k, _ in items]})'
@@ -2614,16 +2671,19 @@ class Machine:
             def fn():
                 nonlocal d
                 dd = d
-                dd |= dict(items)
+                dd |= _pairs_as(iform, items)
                 if dd is not d:
                     raise AssertionError('|= rebinds')
-            desc = f'|= {[k for k, _ in items]}'
+            iform = rng.pick(['dict', 'dict', 'list', 'iter', 'gen',
+                              'userdict', 'mappingproxy'])
+            desc = f'|= {iform} {[k for k, _ in items]}'
         elif entry == 'ctor_map':
             fn = lambda: Cls(dict(items))  # noqa
             desc = f'{cls}({[k for k, _ in items]})'
         elif entry == 'ctor_pairs':
-            fn = lambda: Cls([(k, v) for k, v in items])  # noqa
-            desc = f'{cls}(pairs {[k for k, _ in items]})'
+            cform = rng.pick(['list', 'tuple', 'iter', 'gen', 'zip'])
+            fn = lambda: Cls(_pairs_as(cform, items))  # noqa
+            desc = f'{cls}({cform} of pairs {[k for k, _ in items]})'
         elif entry == 'ctor_kw':
             fn = lambda: Cls(**dict(items))  # noqa
             desc = f'{cls}(**{[k for k, _ in items]})'
@@ -2856,6 +2916,8 @@ class Machine:
             else:
                 wh = rng.pick(['meta', 'visual'])
                 kw[wh] = {bad_key(rng, wh): 1}
+                if rng.chance(0.3):
+                    kw[wh] = _other_kind_meta(rng, wh)
             value = c
         elif rng.chance(0.5):
             kw['meta'] = {k: build(v) for k, v in draw_dict_items(rng, 'meta')}
@@ -3116,6 +3178,8 @@ class Machine:
                 name, rec = rng.pick(NON_MAPPINGS)
                 v = build_invalid(rec)
                 name = 'not-a-mapping:' + name
+            elif rng.chance(0.3):
+                name, v = 'otherkind', _other_kind_meta(rng, f)
         value = f'compound:{f}:{name}'
         what = f'{cls}.copy({f}={name})'
         out, res = self.c17_outcome(lambda: obj.copy(**{f: v}), True, what,
@@ -3195,6 +3259,9 @@ class Machine:
                 name, rec = rng.pick(NON_MAPPINGS)
                 d = build_invalid(rec)
                 value = f'dict:not-a-mapping:{name}'
+            elif invalid and rng.chance(0.3):
+                d = _other_kind_meta(rng, f)
+                value = 'dict:otherkind'
             elif invalid:
                 d[bad_key(rng, f)] = 1
                 value = 'dict:badkey'
